@@ -14,7 +14,7 @@
    term with every number left as a variable. *)
 (* == block preamble == *)
 From NextestModel Require Import Base.Str Model.Backoff Model.Clocks Model.UnitTimers Model.AbsTimers
-  Model.UnitLife Model.ArmTable gen.GenPauseTable gen.GenArmTable.
+  Model.UnitLife Model.ArmTable Proofs.Timers Proofs.UnitProps gen.GenPauseTable gen.GenArmTable.
 Open Scope N_scope.
 
 Ltac split_clocks :=
@@ -160,6 +160,156 @@ Lemma bridge_idle script k : unit_bridge script in_idle k.
 Proof.
   intros cfg [p ck l h to sl rp ok lk fd] r Hp _; cbn [ph] in Hp.
   destruct Hp; subst p; destruct r; reflexivity.
+Qed.
+
+(* ---------------------------------------------------------------- what the properties say, obtained
+   from the bridge lemmas above and the single-step facts about the model (Proofs/UnitProps.v) *)
+
+(* == block c10 (needs test_cancel script_cancel term_cancel leak_cancel delay_cancel) == *)
+(* the model leaves a unit alone on OtherCancel, whatever its state *)
+Lemma ucore_other_cancel tbl cfg s : ucore tbl cfg s (AReq ROtherCancel) = Ok (s, []).
+Proof. unfold ucore. destruct (ph s); reflexivity. Qed.
+
+Lemma source_other_cancel_ignored script cfg s :
+  ph s = PRunning \/ (exists x, ph s = PTerminating x) \/ ph s = PExiting ->
+  interp_unit arm_table script cfg s ROtherCancel = Some (Ok (s, [])).
+Proof.
+  intros H.
+  assert (Hb : interp_unit arm_table script cfg s ROtherCancel =
+               Some (lift_u (ucore pause_table cfg s (AReq ROtherCancel)))).
+  { destruct H as [H|[H|H]].
+    - destruct script; [now apply bridge_script_cancel | now apply bridge_test_cancel].
+    - now apply bridge_term_cancel.
+    - now apply bridge_leak_cancel. }
+  rewrite Hb, ucore_other_cancel. reflexivity.
+Qed.
+
+Lemma source_other_cancel_arms_empty :
+  on_cancel (a_test arm_table) = [] /\ on_cancel (a_script arm_table) = [] /\
+  on_cancel (a_term arm_table) = [] /\ on_cancel (a_leak arm_table) = [].
+Proof. repeat split; reflexivity. Qed.
+
+Lemma source_other_cancel_ends_delay d :
+  dwf d -> d_done d = false ->
+  interp_delay arm_table d ROtherCancel =
+  Some (Ok ({| d_ck := d_ck d; d_done := true; d_cancelled := true |}, [])).
+Proof.
+  intros Hw Hd. rewrite (bridge_delay_cancel d ROtherCancel Hw eq_refl).
+  unfold dstep. rewrite Hd. reflexivity.
+Qed.
+
+(* == block c11 (needs test_shutdown script_shutdown term_shutdown leak_shutdown delay_shutdown term_expiry) == *)
+Lemma source_shutdown_running script cfg s q :
+  ph s = PRunning -> reaped s = false ->
+  exists s', interp_unit arm_table script cfg s (RShutdown q)
+             = Some (Ok (s', [SKill TGroup (shutdown_method cfg q)])) /\
+             (is_kill (shutdown_method cfg q) = false -> ph s' = PTerminating TSignal /\
+                k_gsl (ck s') = slc_new (grace cfg)) /\
+             (is_kill (shutdown_method cfg q) = true -> ph s' = PRunning).
+Proof.
+  intros Hp Hr.
+  destruct (shutdown_running pause_table cfg s q Hp Hr) as [s' [He Hrest]].
+  exists s'. split; [|exact Hrest].
+  assert (Hb : interp_unit arm_table script cfg s (RShutdown q) =
+               Some (lift_u (ucore pause_table cfg s (AReq (RShutdown q))))).
+  { destruct script; [now apply bridge_script_shutdown | now apply bridge_test_shutdown]. }
+  rewrite Hb, He. reflexivity.
+Qed.
+
+Lemma source_shutdown_grace script cfg s x q :
+  ph s = PTerminating x ->
+  interp_unit arm_table script cfg s (RShutdown q) = Some (Ok (leave_terminate s x, [SKill TGroup SigKill])).
+Proof.
+  intros Hp. rewrite (bridge_term_shutdown script cfg s (RShutdown q)); [|exists x; exact Hp|reflexivity].
+  unfold ucore. rewrite Hp. reflexivity.
+Qed.
+
+Lemma source_grace_expiry cfg s x :
+  ph s = PTerminating x ->
+  interp_expiry arm_table cfg s x = Some (Ok (leave_terminate s x, [SKill TGroup SigKill])).
+Proof.
+  intros Hp. rewrite (bridge_term_expiry cfg s x Hp). unfold ucore. rewrite Hp. reflexivity.
+Qed.
+
+Lemma source_shutdown_leak script cfg s q :
+  ph s = PExiting -> interp_unit arm_table script cfg s (RShutdown q) = Some (Ok (s, [])).
+Proof.
+  intros Hp. rewrite (bridge_leak_shutdown script cfg s (RShutdown q) Hp eq_refl).
+  unfold ucore. rewrite Hp. reflexivity.
+Qed.
+
+Lemma source_shutdown_ends_delay d q :
+  dwf d -> d_done d = false ->
+  interp_delay arm_table d (RShutdown q) =
+  Some (Ok ({| d_ck := d_ck d; d_done := true; d_cancelled := true |}, [])).
+Proof.
+  intros Hw Hd. rewrite (bridge_delay_shutdown d (RShutdown q) Hw eq_refl).
+  unfold dstep. rewrite Hd. reflexivity.
+Qed.
+
+(* == block c12 (needs test_info script_info term_info leak_info delay_info idle test_stop test_cont script_stop script_cont term_stop term_cont leak_stop leak_cont delay_stop delay_cont) == *)
+Lemma source_info_once script cfg s :
+  interp_unit arm_table script cfg s RGetInfo =
+  Some (Ok (s, match info_tag (ph s) with Some i => [SOut (OInfo i)] | None => [] end)).
+Proof.
+  assert (Hb : interp_unit arm_table script cfg s RGetInfo =
+               Some (lift_u (ucore pause_table cfg s (AReq RGetInfo)))).
+  { destruct (ph s) as [|x| | |] eqn:Hp.
+    - destruct script; [now apply bridge_script_info | now apply bridge_test_info].
+    - apply bridge_term_info; [exists x; exact Hp|reflexivity].
+    - apply (bridge_idle script 4); [left; exact Hp|reflexivity].
+    - now apply bridge_leak_info.
+    - apply (bridge_idle script 4); [right; exact Hp|reflexivity]. }
+  rewrite Hb, info_once. cbn [lift_u]. destruct (info_tag (ph s)); reflexivity.
+Qed.
+
+Lemma source_info_once_delay d :
+  dwf d -> d_done d = false ->
+  interp_delay arm_table d RGetInfo = Some (Ok (d, [SOut (OInfo IDelay)])).
+Proof.
+  intros Hw Hd. rewrite (bridge_delay_info d RGetInfo Hw eq_refl).
+  unfold dstep. rewrite Hd. reflexivity.
+Qed.
+
+(* the Stop / Continue arms as read by this translator are the pause table read by the other one
+   (harness/src/bin/pause_table.rs): every C12 theorem about [pause_table] is about these arms *)
+Lemma source_job_control_is_pause_table script cfg s r :
+  r = RStop \/ r = RContinue ->
+  interp_unit arm_table script cfg s r = Some (lift_u (ucore pause_table cfg s (AReq r))).
+Proof.
+  intros Hr. destruct (ph s) as [|x| | |] eqn:Hp.
+  - destruct script; destruct Hr; subst r;
+      first [ now apply bridge_script_stop | now apply bridge_script_cont
+            | now apply bridge_test_stop | now apply bridge_test_cont ].
+  - assert (in_term (ph s)) by (exists x; exact Hp).
+    destruct Hr; subst r; [now apply bridge_term_stop | now apply bridge_term_cont].
+  - apply (bridge_idle script (req_kind r)); [left; exact Hp|reflexivity].
+  - destruct Hr; subst r; [now apply bridge_leak_stop | now apply bridge_leak_cont].
+  - apply (bridge_idle script (req_kind r)); [right; exact Hp|reflexivity].
+Qed.
+
+Lemma source_job_control_is_pause_table_delay d r :
+  dwf d -> r = RStop \/ r = RContinue ->
+  interp_delay arm_table d r = Some (lift_d (dstep pause_table d (DReq r))).
+Proof.
+  intros Hw [Hr|Hr]; subst r; [now apply bridge_delay_stop | now apply bridge_delay_cont].
+Qed.
+
+(* == block c09 (needs term_entry term_expiry) == *)
+(* a slow-timeout termination: the signal computed by timeout_terminate_method goes to the group *)
+Lemma source_timeout_signal_to_group cfg s :
+  reaped s = false ->
+  eres_out (run_entry arm_table cfg s TTimeout None) = Some [SKill TGroup (timeout_method cfg)].
+Proof.
+  destruct cfg as [pe ta gr lt]; destruct s as [p ck l h to sl rp ok lk fd]; cbn [reaped].
+  intros ->. destruct gr; crunch.
+Qed.
+Lemma source_timeout_escalation cfg s :
+  ph s = PTerminating TTimeout ->
+  interp_expiry arm_table cfg s TTimeout
+  = Some (Ok (leave_terminate s TTimeout, [SKill TGroup SigKill])).
+Proof.
+  intros Hp. rewrite (bridge_term_expiry cfg s TTimeout Hp). unfold ucore. rewrite Hp. reflexivity.
 Qed.
 
 (* == block all (needs test_stop test_cont test_shutdown test_cancel test_info script_stop script_cont script_shutdown script_cancel script_info term_stop term_cont term_shutdown term_cancel term_info leak_stop leak_cont leak_shutdown leak_cancel leak_info delay_stop delay_cont delay_shutdown delay_cancel delay_info term_entry term_expiry idle) == *)
